@@ -16,8 +16,8 @@
 EXTENDS EngineMC, IOUtils
 
 CONSTANTS Diag, PromptMs
-VARIABLES l, run, retLogged, wdLogged, runLogged
-aux == <<retLogged, wdLogged, runLogged>>
+VARIABLES l, run, retLogged, wdLogged, runLogged, engLogged
+aux == <<retLogged, wdLogged, runLogged, engLogged>>
 
 Trace == ndJsonDeserialize(IOEnv.VERIF_TRACE)
 Ev == Trace[l]
@@ -29,19 +29,21 @@ TInit ==
     /\ InitFor(PlanById(Trace[s].plan))
     /\ retLogged = [p \in 1..Trace[s].n |-> FALSE]
     /\ wdLogged = [p \in 1..Trace[s].n |-> 0]
-    /\ runLogged = FALSE
+    /\ runLogged = FALSE /\ engLogged = FALSE
 
 Have(e) == l <= Len(Trace) /\ Ev.run = run /\ Ev.ev = e
 Consume == l' = l + 1 /\ run' = run /\ (Diag => PrintT(<<"VERIF-HW", run, l>>))
 PRet(e) == IF e.cls = "err" THEN Ret("err", e.c) ELSE Ret(e.cls, "")
 
 TCancel == Have("Cancel") /\ UserCancel /\ Consume /\ UNCHANGED aux
-TEngineReturn == Have("EngineReturn") /\ (EngRecv \/ EngCancel) /\ engRet'.k # "none" /\ Consume /\ UNCHANGED aux
+\* written by Run's deferred function: after the loop decided the result (silent EngRecv / EngCancel), before cancel()
+TEngineReturn == /\ Have("EngineReturn") /\ engRet.k # "none" /\ ~engLogged /\ engLogged' = TRUE
+                 /\ Consume /\ UNCHANGED <<vars, retLogged, wdLogged, runLogged>>
 TRunReturn ==
   /\ Have("RunReturn") /\ ~runLogged
   /\ engRet = (IF Ev.cls = "err" THEN ERet("err", Ev.p, Ev.c) ELSE ERet(Ev.cls, 0, ""))
   /\ (Ev.flag => Ev.ms <= PromptMs)
-  /\ runLogged' = TRUE /\ Consume /\ UNCHANGED <<vars, retLogged, wdLogged>>
+  /\ runLogged' = TRUE /\ Consume /\ UNCHANGED <<vars, retLogged, wdLogged, engLogged>>
 TWaitReturn == Have("WaitReturn") /\ runLogged /\ WaitReturn /\ Consume /\ UNCHANGED aux
 TEnd ==
   /\ Have("End") /\ Terminated /\ runLogged
@@ -50,16 +52,21 @@ TEnd ==
   /\ PrintT(<<"VERIF-ACC", run>>)
   /\ Consume /\ UNCHANGED <<vars, aux>>
 
+\* a mock has entered the warm-up / schedule-factory call that does not return before Run has returned (plan field
+\* block); the driver lets it return after RunReturn
+TBlocked == Have("Blocked") /\ PP(Ev.p).block = Ev.cls /\ pst[Ev.p] = "init" /\ Consume /\ UNCHANGED <<vars, aux>>
+TRelease == Have("Release") /\ runLogged /\ engRet.k # "none" /\ Consume /\ UNCHANGED <<vars, aux>>
+
 TPoolReturn ==
   /\ Have("PoolReturn") /\ ~retLogged[Ev.p]
   /\ retLogged' = [retLogged EXCEPT ![Ev.p] = TRUE]
   /\ \/ pst[Ev.p] \in {"ret", "report", "done"} /\ pret[Ev.p] = PRet(Ev) /\ UNCHANGED vars   \* failsync: PoolStart was silent
      \/ PoolRet(Ev.p, PRet(Ev))
-  /\ Consume /\ UNCHANGED <<wdLogged, runLogged>>
+  /\ Consume /\ UNCHANGED <<wdLogged, runLogged, engLogged>>
 TWaitDone ==
   /\ Have("WaitDone") /\ wdLogged[Ev.p] < wd[Ev.p]
   /\ wdLogged' = [wdLogged EXCEPT ![Ev.p] = @ + 1]
-  /\ Consume /\ UNCHANGED <<vars, retLogged, runLogged>>
+  /\ Consume /\ UNCHANGED <<vars, retLogged, runLogged, engLogged>>
 
 \* the await goroutine's send and Run's receive are one step; either side may log first (the await goroutine may
 \* even log WaitDone before Run logs its return)
@@ -79,11 +86,11 @@ TSkip == /\ l <= Len(Trace) /\ Ev.run = run /\ (Ev.ev \in Skipped \/ (Ev.ev = "B
          /\ Consume /\ UNCHANGED <<vars, aux>>
 
 TSilent ==
-  /\ \/ EngRecv /\ engRet'.k = "none"
-     \/ EngDefer \/ UserCancelDo
+  /\ \/ EngRecv \/ EngCancel
+     \/ (engLogged /\ EngDefer) \/ UserCancelDo
      \/ \E p \in Pools : PoolStart(p) \/ StartEnd(p) \/ AwaitExit(p) \/ PoolDefer(p) \/ PoolReportSend(p) \/ PoolReportSuppress(p)
   /\ UNCHANGED <<l, run, aux>>
 
-TNext == TCancel \/ TEngineReturn \/ TRunReturn \/ TWaitReturn \/ TEnd \/ TPoolReturn \/ TWaitDone
+TNext == TCancel \/ TEngineReturn \/ TRunReturn \/ TWaitReturn \/ TEnd \/ TBlocked \/ TRelease \/ TPoolReturn \/ TWaitDone
          \/ TErrForwarded \/ TInstStart \/ TBgStop \/ TSkip \/ TSilent
 =============================================================================
